@@ -5,6 +5,7 @@ import (
 	"sort"
 
 	"github.com/ethereum/go-ethereum/common"
+	ethcrypto "github.com/ethereum/go-ethereum/crypto"
 	triggerRegistryBindings "github.com/shutter-network/contracts/v2/bindings/shuttereventtriggerregistryv1"
 
 	svc "github.com/shutter-network/rolling-shutter/rolling-shutter/keyperimpl/shutterservice"
@@ -77,6 +78,13 @@ func runC16(r *simkit.Run) {
 				for _, i := range regAt[n] {
 					d, topic := mkDef(i*2 + branch)
 					t := &c16Trigger{eon: 1, prefix: [32]byte{byte(i), byte(branch), 0x77}, sender: common.BytesToAddress([]byte{0x61, byte(i)}), def: d, defB: toRepoDef(d).MarshalBytes(), topic: topic}
+					if len(trigs) > 0 && c.Chance(250, "same-prefix-and-sender") {
+						// the same registrant reuses a prefix with another definition: a distinct
+						// trigger (the identity covers the definition)
+						o := trigs[c.Intn(len(trigs), "reused-trigger")]
+						t.prefix, t.sender = o.prefix, o.sender
+						r.Probe("prefix-reused-with-other-definition")
+					}
 					t.expiry = uint64(n + c.Range(0, 8, "expiry-delta"))
 					specs = append(specs, logEventTriggerRegistered(t.eon, t.prefix, t.sender, t.defB, t.expiry))
 					newTr = append(newTr, t)
@@ -146,7 +154,7 @@ func runC16(r *simkit.Run) {
 		}
 		for _, l := range chain.CanonicalLogs(t.regBlk.Number+1, t.expiry) {
 			if m, _ := t.def.Match(l.Address, l.Topics, l.Data); m {
-				want[fmt.Sprintf("%d/%x/%s", t.eon, t.prefix, t.sender.Hex())] = fmt.Sprintf("b=%d/%x tx=%d log=%d", l.BlockNumber, l.BlockHash.Bytes()[:6], l.TxIndex, l.Index)
+				want[fmt.Sprintf("%d/%x", t.eon, ethcrypto.Keccak256(append(append(append([]byte{}, t.prefix[:]...), t.sender.Bytes()...), t.defB...)))] = fmt.Sprintf("b=%d/%x tx=%d log=%d", l.BlockNumber, l.BlockHash.Bytes()[:6], l.TxIndex, l.Index)
 				break
 			}
 		}
@@ -225,7 +233,7 @@ func runC16(r *simkit.Run) {
 		}
 		got := map[string]string{}
 		for _, row := range rows {
-			key := fmt.Sprintf("%d/%x/%s", row[ci["eon"]].(int64), row[ci["identity_prefix"]].([]byte), common.HexToAddress(row[ci["sender"]].(string)).Hex())
+			key := fmt.Sprintf("%d/%x", row[ci["eon"]].(int64), row[ci["identity"]].([]byte))
 			val := fmt.Sprintf("b=%d/%x tx=%d log=%d", row[ci["block_number"]].(int64), row[ci["block_hash"]].([]byte)[:6], row[ci["tx_index"]].(int64), row[ci["log_index"]].(int64))
 			if _, dup := got[key]; dup {
 				w.close()
